@@ -97,18 +97,32 @@ def validate_parallel(ctx, traces, timeout=3000):
 
 
 def run(ctx):
+    ctx.level = "exploration"   # the conformance side samples the input space (see manifest level_note)
     ctx.build(["vh-misc"])
     if ctx.replay:
         return replay(ctx)
     q = ctx.quick
     mats_all = ctx.path("mats_all.jsonl")
     nm = mc_generate(ctx, "misc/MC_Ctc", "misc/MC_Ctc_quick.cfg" if q else "misc/MC_Ctc_thorough.cfg", mats_all,
-                     workers=4 if q else 6, timeout=2400, label="all matrices of probabilities n/4")
-    mats = ctx.path("mats.jsonl")
-    nsel = vlib.sample_lines(mats_all, mats, 220 if q else 4000, ctx.seed)
+                     workers=4 if q else 6, timeout=3600, label="all matrices of probabilities n/4")
+    # every enumerated matrix with T <= 2 is replayed (exhaustive for the smallest sizes), the others are sampled
+    mats, rest = ctx.path("mats.jsonl"), ctx.path("mats_rest.jsonl")
+    small = []
+    with open(mats_all) as f, open(rest, "w") as fr:
+        for line in f:
+            if json.loads(line)["T"] <= 2:
+                small.append(line)
+            else:
+                fr.write(line)
+    sampled = ctx.path("mats_sampled.jsonl")
+    nsel = vlib.sample_lines(rest, sampled, 90 if q else 4000, ctx.seed) + len(small)
+    with open(mats, "w") as f:
+        f.write(open(sampled).read())      # sampled ones first: they get the all-widths treatment
+        f.writelines(small)
+    ctx.cov["matrices_T_le_2_replayed_exhaustively"] = len(small)
     trace = ctx.path("ctc.ndjson")
     ctx.harness("vh-misc", ["ctc", "--mats", mats, "--all-widths", 12 if q else 150,
-                            "--random", 70 if q else 1500, "--out", trace])
+                            "--random", 50 if q else 1500, "--out", trace])
     if not q:
         selftest(ctx, trace)
     bad, stats = validate_parallel(ctx, split_trace(trace, 1 if q else 6, "ccase"))
